@@ -416,6 +416,20 @@ def run(ctx):
     recb = (b"\x17\x06\x00\x01\x09" + num(len(packedh)) + b"\x00\x07\x0b\x01\x00\x01\x21\x21" + bytes([len(pr)]) + pr +
             b"\x0c" + num(len(rawh) + (250 << 20)) + b"\x00\x00")
     add("synthetic:encoded-header-250MiB-of-padding", seal(packedh, recb), None, seq=["getnames"])
+    # a folder decoded by TWO decoder objects (the classic 7-Zip pair BCJ + LZMA) whose packed stream really expands to
+    # half a gigabyte while the header declares a thousand bytes: every stage of the chain is asked for no more than
+    # is wanted
+    f1 = [{"id": lz.FILTER_LZMA1, "dict_size": 1 << 16, "lc": 3, "lp": 0, "pb": 2}]
+    comp = lz.LZMACompressor(format=lz.FORMAT_RAW, filters=f1)
+    bomb = b"".join(comp.compress(bytes(1 << 20)) for _ in range(512)) + comp.flush()
+    p1 = lz._encode_filter_properties(f1[0])
+    # coder 0 = LZMA (decoded first), coder 1 = BCJ x86 taking its input from coder 0's output
+    folder2 = (b"\x02" + b"\x23\x03\x01\x01" + bytes([len(p1)]) + p1 + b"\x04\x03\x03\x01\x03" + b"\x01\x00")
+    hdr2 = (b"\x01\x04\x06\x00\x01\x09" + num(len(bomb)) + b"\x00" + b"\x07\x0b\x01\x00" + folder2 + b"\x0c" + num(1000) + num(1000) + b"\x00" +
+            b"\x08\x0a\x01" + struct.pack("<L", zlib.crc32(bytes(1000))) + b"\x00\x00" +
+            b"\x05\x01\x11\x05\x00\x61\x00\x00\x00\x00\x00")
+    add("synthetic:two-stage-bomb-bcj+lzma", seal(bomb, hdr2), None, seq=["extractall"])
+    add("synthetic:two-stage-bomb-bcj+lzma", seal(bomb, hdr2), None, seq=["testzip"])
     # degenerate inputs
     for blob in (b"", b"7z", b"7z\xbc\xaf\x27\x1c", b"7z\xbc\xaf\x27\x1c\x00\x04" + bytes(24), seal(b"", b""), seal(b"", b"\x01"), seal(b"", b"\x17"),
                  seal(b"", b"\x01\x00"), seal(b"", b"\x01\x05"), seal(b"", b"\x01\x04\x06")):
